@@ -253,7 +253,7 @@ class ClientTask:
                                      if isinstance(e, ReadConflictError)
                                      else 'conflict')
                 rec.add('X', self.idx, self.txn_no, type(e).__name__, phase,
-                        getattr(cl.conn._storage, '_start', None))
+                        getattr(cl.conn._normal_storage, '_start', None))
                 cl.abort()
             except ctx.SimAbort:
                 raise
